@@ -220,6 +220,83 @@ fn main() {
             }
             out.flush().unwrap();
         }
+        "wrapper-check" => {
+            // C01 with a custom wrapper type `W: From<Object<M>>`: a conversion that panics must not
+            // leave an extra permit behind (the object goes back to the pool during the unwinding)
+            use std::sync::atomic::{AtomicBool, AtomicUsize, Ordering};
+            use std::sync::Arc;
+            struct M {
+                created: Arc<AtomicUsize>,
+                live: Arc<AtomicUsize>,
+            }
+            struct Obj(Arc<AtomicUsize>);
+            impl Drop for Obj {
+                fn drop(&mut self) {
+                    let _ = self.0.fetch_sub(1, Ordering::SeqCst);
+                }
+            }
+            impl deadpool::managed::Manager for M {
+                type Type = Obj;
+                type Error = ();
+                async fn create(&self) -> Result<Obj, ()> {
+                    let _ = self.created.fetch_add(1, Ordering::SeqCst);
+                    let _ = self.live.fetch_add(1, Ordering::SeqCst);
+                    Ok(Obj(self.live.clone()))
+                }
+                async fn recycle(&self, _: &mut Obj, _: &deadpool::managed::Metrics) -> deadpool::managed::RecycleResult<()> {
+                    Ok(())
+                }
+            }
+            static PANIC_NEXT: AtomicBool = AtomicBool::new(false);
+            struct Wrap(#[allow(dead_code)] deadpool::managed::Object<M>);
+            impl From<deadpool::managed::Object<M>> for Wrap {
+                fn from(o: deadpool::managed::Object<M>) -> Self {
+                    if PANIC_NEXT.swap(false, Ordering::SeqCst) {
+                        panic!("scripted panic in From<Object>");
+                    }
+                    Wrap(o)
+                }
+            }
+            let rt = tokio::runtime::Builder::new_current_thread().enable_all().build().unwrap();
+            let mut lines = Vec::new();
+            for max in [1usize, 2] {
+                let created = Arc::new(AtomicUsize::new(0));
+                let live = Arc::new(AtomicUsize::new(0));
+                let pool: deadpool::managed::Pool<M, Wrap> =
+                    deadpool::managed::Pool::builder(M { created: created.clone(), live: live.clone() }).max_size(max).build().unwrap();
+                let zero = deadpool::managed::Timeouts { wait: Some(std::time::Duration::ZERO), create: None, recycle: None };
+                let holders = rt.block_on(async {
+                    // twice: a panicking conversion of a fresh and of a recycled object
+                    for _ in 0..2 {
+                        PANIC_NEXT.store(true, Ordering::SeqCst);
+                        let p2 = pool.clone();
+                        let z = zero;
+                        let r = tokio::spawn(async move { p2.timeout_get(&z).await.map(|_| ()) }).await;
+                        assert!(r.is_err(), "the conversion was scripted to panic");
+                    }
+                    let mut held = Vec::new();
+                    for _ in 0..max + 2 {
+                        if let Ok(w) = pool.timeout_get(&zero).await {
+                            held.push(w);
+                        }
+                    }
+                    let n = held.len();
+                    let l = live.load(Ordering::SeqCst);
+                    drop(held);
+                    (n, l)
+                });
+                let st = pool.status();
+                let ok = holders.0 <= max && holders.1 <= max;
+                lines.push(format!(
+                    "wrapper max={} holders={} live={} creates={} size={} ok={}",
+                    max, holders.0, holders.1, created.load(Ordering::SeqCst), st.size, ok as u8
+                ));
+            }
+            for l in lines {
+                writeln!(out, "{}", l).unwrap();
+            }
+            out.flush().unwrap();
+        }
         "outlive-check" => {
             // C06, last clause: objects that outlive every pool handle can still be used and
             // dropped safely; what the pool still held goes away with it.
